@@ -323,7 +323,9 @@ func runGraph(sc *gScen) *gRun {
 	for id, m := range env.clones {
 		i, _ := strconv.Atoi(id)
 		for ver, c := range m {
-			env.byPtr[c] = fmt.Sprintf("%d#%d", i, ver)
+			if _, isFn := c.(FN); !isFn {
+				env.byPtr[c] = fmt.Sprintf("%d#%d", i, ver)
+			}
 		}
 	}
 	res.appRow = res.rowOf[framework_helper.GetComponentName(a)]
@@ -387,7 +389,7 @@ func runGraph(sc *gScen) *gRun {
 				var err error
 				if hx.Guard(func() { c, err = a.GetComponentByName(names[i]) }) != nil || err != nil {
 					res.pubs[i] = "!"
-				} else if k, ok := env.byPtr[c]; ok {
+				} else if k, ok := env.keyOf(c); ok {
 					res.pubs[i] = k
 				} else {
 					res.pubs[i] = "?"
@@ -530,13 +532,16 @@ func readSlot(v reflect.Value, env *runEnv) []string {
 		if !x.IsValid() || ((x.Kind() == reflect.Pointer || x.Kind() == reflect.Interface) && x.IsNil()) {
 			return false
 		}
+		if _, isFn := x.Interface().(FN); isFn {
+			return false
+		}
 		return env.dummies[x.Interface()]
 	}
 	key := func(x reflect.Value) string {
 		if !x.IsValid() || ((x.Kind() == reflect.Pointer || x.Kind() == reflect.Interface) && x.IsNil()) {
 			return "nil"
 		}
-		if k, ok := env.byPtr[x.Interface()]; ok {
+		if k, ok := env.keyOf(x.Interface()); ok {
 			return k
 		}
 		return "?"
